@@ -259,6 +259,10 @@ func (pm *ProtocolManager) handleMsg(p *peer) error {
 		if last == nil {
 			last = pm.chainman.CurrentBlock()
 			request.Amount = last.Height - request.Number + 1
+			// the recomputed amount must respect the reply limit as well (e.g. Number == 0)
+			if request.Amount > uint64(downloader.MaxHashFetch) {
+				request.Amount = uint64(downloader.MaxHashFetch)
+			}
 		}
 		if last.Height < request.Number {
 			return p.SendBlockHashes(nil)
